@@ -168,8 +168,9 @@ func c15Configs(tier string) []vmc.Cfg {
 			out = append(out, vmc.Cfg{Name: fmt.Sprintf("getvalue/wan-%s/lan-%s", wv, lv), Data: c15cfg{part: "getvalue", s: wv + "," + lv}})
 		}
 	}
-	// providers: who reports X / Y: bit0 wan reports X, bit1 lan reports X, bit2 lan reports Y, bit3 wan reports Y, bit4 X stored locally (WAN store)
-	for m := 0; m < 32; m++ {
+	// providers: who reports X / Y: bit0 wan reports X, bit1 lan reports X, bit2 lan reports Y, bit3 wan reports Y, bit4 X stored locally (WAN store),
+	// bit5 every provider is reported (and stored) without addresses (known by id only; seed C08-h)
+	for m := 0; m < 64; m++ {
 		for count := 0; count <= 2; count++ {
 			out = append(out, vmc.Cfg{Name: fmt.Sprintf("findproviders/dist%02x/count%d", m, count), Data: c15cfg{part: "findproviders", mask: m, a: count}})
 		}
@@ -417,6 +418,9 @@ func c15Run(x *vmc.X, cfg vmc.Cfg) {
 		Xl := peer.AddrInfo{ID: X.ID, Addrs: []ma.Multiaddr{privAddr(9)}}
 		Y := peer.AddrInfo{ID: kid.Peer("101", 61), Addrs: []ma.Multiaddr{pubAddr(8)}}
 		Yl := peer.AddrInfo{ID: Y.ID, Addrs: []ma.Multiaddr{privAddr(8)}}
+		if c.mask&32 != 0 {
+			X.Addrs, Xl.Addrs, Y.Addrs, Yl.Addrs = nil, nil, nil, nil
+		}
 		exp := map[peer.ID]bool{}
 		if c.mask&1 != 0 {
 			e.w.Peers[w1].Providers[string(mh)] = append(e.w.Peers[w1].Providers[string(mh)], X)
